@@ -299,6 +299,13 @@ func (o *Outcome) writeEvidence(dir string, byRule map[string][2]int) {
 		disch += c[1]
 		ruleCounts[r] = map[string]int{"obligations": c[0], "discharged": c[1]}
 	}
+	// aggregated obligations (e.g. the individual machine-operation obligations behind one E4-OBL line)
+	if n, ok := o.Extra["aggregated_obligations"].(int); ok {
+		total += n
+		if nd, ok := o.Extra["aggregated_discharged"].(int); ok {
+			disch += nd
+		}
+	}
 	// known findings count as not discharged
 	keys := map[string]bool{}
 	for _, ob := range o.Set.Obls {
